@@ -8,4 +8,6 @@ Extraction "c17_model.ml"
   Base.FILL
   C17.c17_run_face C17.c17_run_edge C17.c17_gathers C17.c17_loop C17.c17_partitions
   C02.n_nodes_per_face C02.edges
-  C17.c17_dispatch C17.c17_result_dims C17.c17_result_shape C17.c17_dim_size.
+  C17.c17_dispatch C17.c17_result_dims C17.c17_result_shape C17.c17_dim_size
+  C17.c17_result_dtype C17.c17_face_row_of_gathers C17.c17_face_row_inplace_sort C17.c17_face_row_positional
+  C17.c17_edge_row C17.c17_agg_of.
